@@ -93,10 +93,7 @@ Theorem C19_list_set_replaces_exactly :
        zlen code <= max32 ->
        list_set s = Ok (set_code (snd d)
                           (match code with [] => [] | _ => firstn pos code ++ fst d :: skipn (S pos) code end))).
-Proof.
-  intros FO s. split; [exact (proj1 (list_set_no_operands s))|].
-  split; [exact (proj2 (list_set_no_operands s))|]. exact (list_set_lemma s).
-Qed.
+Proof. exact (fun _ : FloatOps => list_set_replaces_exactly_lemma). Qed.
 Print Assumptions C19_list_set_replaces_exactly.
 
 (* LIST.REMOVE deletes exactly the record at the clamped position. *)
@@ -108,7 +105,7 @@ Theorem C19_list_remove_deletes_exactly :
        let pos := Z.to_nat (clamped_pos idx (zlen code)) in
        list_remove s = Ok (set_code (set_int s r)
                              (match code with [] => [] | _ => firstn pos code ++ skipn (S pos) code end))).
-Proof. intros FO s. split; [exact (list_remove_no_operand s)|exact (list_remove_lemma s)]. Qed.
+Proof. exact (fun _ : FloatOps => list_remove_deletes_exactly_lemma). Qed.
 Print Assumptions C19_list_remove_deletes_exactly.
 
 (* The position every LIST instruction computes lies inside the CODE stack:
